@@ -4,26 +4,36 @@ use crate::*;
 
 
 pub(crate) fn impl_sqrt(n: &BigUint, scale: i64, ctx: &Context) -> BigDecimal {
-    // Calculate the number of digits and the difference compared to the scale
+    // Calculate the number of digits of the integer
     let num_digits = count_decimal_digits_uint(n);
-    let scale_diff = BigInt::from(num_digits) - scale;
 
-    // Calculate the number of wanted digits and the exponent we need to raise the original value to
     // We want twice as many digits as the precision because sqrt halves the number of digits
-    // We add an extra one for rounding purposes
+    // (plus some extra digits for rounding purposes)
     let prec = ctx.precision().get();
     let extra_rounding_digit_count = 5;
     let wanted_digits = 2 * (prec + extra_rounding_digit_count);
-    let exponent = wanted_digits.saturating_sub(num_digits) + u64::from(scale_diff.is_odd());
-    let sqrt_digits = (n * ten_to_the_uint(exponent)).sqrt();
 
-    // Calculate the scale of the result
-    let result_scale_digits = 2 * (2 * prec - scale_diff) - 1;
-    let result_scale_decimal: BigDecimal = BigDecimal::new(result_scale_digits, 0) / 4.0;
-    let mut result_scale = result_scale_decimal.with_scale_round(0, RoundingMode::HalfEven).int_val;
+    // number of zeros to append: enough digits, and an even resulting scale
+    let mut exponent = wanted_digits.saturating_sub(num_digits);
+    if (BigInt::from(scale) + exponent).is_odd() {
+        exponent += 1;
+    }
+    let shifted_scale = BigInt::from(scale) + exponent;
+
+    let shifted_digits = n * ten_to_the_uint(exponent);
+    let mut sqrt_digits = shifted_digits.sqrt();
+
+    // the scale of the root is exactly half the (even) scale of the shifted value
+    let mut result_scale: BigInt = shifted_scale / 2;
+
+    // if the integer root is inexact, append a non-zero "sticky" digit so that
+    // directed and half-way rounding see that digits were discarded
+    if &sqrt_digits * &sqrt_digits != shifted_digits {
+        sqrt_digits = sqrt_digits * 10u8 + 1u8;
+        result_scale += 1;
+    }
 
     // Round the value so it has the correct precision requested
-    result_scale += count_decimal_digits_uint(&sqrt_digits).saturating_sub(prec);
     let unrounded_result = BigDecimal::new(sqrt_digits.into(), result_scale.to_i64().unwrap());
     unrounded_result.with_precision_round(ctx.precision(), ctx.rounding_mode())
 }
